@@ -13,7 +13,7 @@ at the end.  Results go to --out (default /verif/seeded/MATRIX.json, merged by i
 """
 import json, os, shutil, subprocess, sys, threading, time, queue, re
 
-ROOT = "/tmp/dltmx"
+ROOT = os.environ.get("MATRIX_ROOT", "/tmp/dltmx")
 ALL = ["C%02d" % i for i in range(1, 20)]
 
 
